@@ -26,6 +26,7 @@ func init() {
 	register("C08", true, checkC08)
 	register("C19", true, checkC19)
 	register("C14", true, checkC14)
+	register("C13", true, checkC13)
 }
 
 func main() {
